@@ -116,11 +116,19 @@ func vkLKRunOnce(sc vkLKScenario, order []string, T time.Duration) (res vkLKResu
 	if err := w.begin(); err != nil {
 		return res, false, err
 	}
+	if strings.ContainsRune(sc.Budgets, 'S') && !time.Now().Before(w.deadline.Add(-2*time.Millisecond)) {
+		_, _, _ = w.drain() // the deadline instant passed while the first caller was still being started
+		return res, true, nil
+	}
 	ansStep := map[int]int{}
 	trigger := map[int]string{0: "start"}
 	fullOrder := true
 	for k, ev := range order {
 		if w.allReturned() {
+			if strings.ContainsRune(sc.Budgets, 'S') && !w.dlPassed && !time.Now().Before(w.deadline.Add(-2*time.Millisecond)) {
+				_, _, _ = w.drain() // cannot tell whether they returned before the deadline instant: rerun
+				return res, true, nil
+			}
 			res.early, fullOrder = true, false
 			break
 		}
@@ -183,14 +191,14 @@ func vkLKRunOnce(sc vkLKScenario, order []string, T time.Duration) (res vkLKResu
 		classes = append(classes, cls)
 		for _, s := range stuck {
 			if s == c.idx {
-				add("lookup/wedged/"+base+"/"+who, fmt.Sprintf("caller %s did not return although its own context had ended", who))
+				add("lookup/wedged/"+string(c.budget), fmt.Sprintf("%s: caller %s did not return although its own context had ended", base, who))
 			}
 		}
 		if !c.returned.Load() {
 			continue
 		}
 		if c.resp != nil && (c.resp.Id != c.req.Id || len(c.resp.Question) != 1 || c.resp.Question[0] != c.req.Question[0]) {
-			add("lookup/wrong_reply/"+base+"/"+who, fmt.Sprintf("caller %s (id %d) received a reply with id %d question %v", who, c.req.Id, c.resp.Id, c.resp.Question))
+			add("lookup/wrong_reply", fmt.Sprintf("%s: caller %s (id %d) received a reply with id %d question %v", base, who, c.req.Id, c.resp.Id, c.resp.Question))
 		}
 		expectRefusal := sc.Cfg != "std" && w.occHeldAt[c.idx]
 		// reference: what this caller would obtain alone with its own budget
@@ -208,14 +216,14 @@ func vkLKRunOnce(sc vkLKScenario, order []string, T time.Duration) (res vkLKResu
 		}
 		live := c.killStep < 0 || (c.retStep >= 0 && c.retStep < c.killStep)
 		if waitingAtEnd[c.idx] && fullOrder && c.budget == 'L' && refUseful {
-			add("lookup/wedged_live/"+base+"/"+who,
-				fmt.Sprintf("caller %s was still waiting after every event although an authority that answers NOERROR was answering", who))
+			add("lookup/wedged_live",
+				fmt.Sprintf("%s: caller %s was still waiting after every event although an authority that answers NOERROR was answering", base, who))
 			continue
 		}
 		if live && cls != "OK" && refUseful {
-			add("lookup/live_caller_failed/"+base+"/"+who+"/"+cls+"@"+trigger[c.retStep],
-				fmt.Sprintf("caller %s, whose own context was live (no deadline passed, Done() open), got %s when event %q was processed; alone with its own budget it obtains the NOERROR answer",
-					who, cls, trigger[c.retStep]))
+			add("lookup/live_caller_failed/"+cls+"@"+strings.TrimRight(trigger[c.retStep], "0123456789"),
+				fmt.Sprintf("%s: caller %s, whose own context was live (no deadline passed, Done() open), got %s when event %q was processed; alone with its own budget it obtains the NOERROR answer",
+					base, who, cls, trigger[c.retStep]))
 		}
 	}
 	if w.occ != nil {
@@ -228,7 +236,7 @@ func vkLKRunOnce(sc vkLKScenario, order []string, T time.Duration) (res vkLKResu
 		oc := vkLKResultClass(w.occ)
 		classes = append(classes, "occ:"+oc)
 		if relExecuted && (occWaiting || oc != "OK") {
-			add("lookup/occupant_failed/"+base, "the lookup that held the capacity slot got "+oc+" after its authority answered NOERROR")
+			add("lookup/occupant_failed", base+": the lookup that held the capacity slot got "+oc+" after its authority answered NOERROR")
 		}
 	}
 	for _, l := range leaks {
@@ -236,7 +244,7 @@ func vkLKRunOnce(sc vkLKScenario, order []string, T time.Duration) (res vkLKResu
 		if l.what == "goroutine" {
 			d += ":" + l.detail
 		}
-		add("lookup/leak/"+base+"/"+d, "after every caller returned and every context ended: "+l.what+" left = "+l.detail)
+		add("lookup/leak/"+d, base+": after every caller returned and every context ended: "+l.what+" left = "+l.detail)
 	}
 	res.outcome = sc.Budgets + ":" + strings.Join(classes, ",")
 	return res, false, nil
@@ -388,7 +396,12 @@ func (e *vkLKExplorer) scenario(sc vkLKScenario, work *int) {
 				return
 			}
 			order := append([]string{}, prefix...)
+			t0 := time.Now()
+			n0 := vkLKSnapCount
 			res, err := vkLKRun(sc, order)
+			if vkLKDebug {
+				fmt.Printf("run %s %v: %v, %d snapshots, outcome %s\n", sc, order, time.Since(t0).Round(time.Millisecond), vkLKSnapCount-n0, res.outcome)
+			}
 			if err != nil {
 				e.c.HarnessError(err.Error())
 				e.stop = true
